@@ -228,16 +228,40 @@ where
       'handshake: loop {
         if self.zmtp_engine.phase == ZmtpPhase::Data
           || self.zmtp_engine.phase == ZmtpPhase::Closed
-          || matches!(self.current_phase, ConnectionPhaseX::Terminating)
+          || matches!(
+            self.current_phase,
+            ConnectionPhaseX::Terminating | ConnectionPhaseX::ShuttingDownStream
+          )
         {
           break 'handshake;
         }
 
-        let read_result = tokio::time::timeout_at(
-          hs_deadline,
-          hs_read_half.read_buf(&mut self.handshake_read_buf),
-        )
-        .await;
+        // Stay responsive to Stop / ContextTerminating / SocketClosing while the peer is slow:
+        // otherwise close() and term() have to sit out the whole handshake interval.
+        let read_result = tokio::select! {
+          biased;
+          maybe_cmd = self.command_mailbox_receiver.recv() => {
+            match maybe_cmd {
+              Ok(command) => self.process_command(command).await,
+              Err(_) => self.transition_to_shutdown_stream(None).await,
+            }
+            continue 'handshake;
+          }
+          maybe_event = self.system_event_receiver.recv() => {
+            match maybe_event {
+              Ok(event) => self.process_system_event(event).await,
+              Err(broadcast::error::RecvError::Lagged(_)) => {}
+              Err(broadcast::error::RecvError::Closed) => {
+                self.transition_to_shutdown_stream(None).await
+              }
+            }
+            continue 'handshake;
+          }
+          r = tokio::time::timeout_at(
+            hs_deadline,
+            hs_read_half.read_buf(&mut self.handshake_read_buf),
+          ) => r,
+        };
 
         match read_result {
           Err(_elapsed) => {
@@ -274,8 +298,14 @@ where
     // ScaInitializePipes may already be in the mailbox (sent by SocketCore as soon
     // as it learned about the connection) or may arrive shortly after.
     if self.zmtp_engine.phase == ZmtpPhase::Data
-      && !matches!(self.current_phase, ConnectionPhaseX::Terminating)
+      && !matches!(
+        self.current_phase,
+        ConnectionPhaseX::Terminating
+          | ConnectionPhaseX::ShuttingDownStream
+          | ConnectionPhaseX::Operational
+      )
     {
+      // (Already Operational if the pipes were attached while the handshake was running.)
       self.current_phase = ConnectionPhaseX::WaitingForPipes;
       while self.current_phase == ConnectionPhaseX::WaitingForPipes {
         match self.command_mailbox_receiver.recv().await {
